@@ -223,6 +223,14 @@ def search(ctx, broken, corr):
     c2 = Corr()
     exe = adj_harness(ctx)
     run_histories(ctx, c2, exe, 3000, 60, rng=random.Random(f"search-{ctx.seed}"))
+    if not c2.failures:
+        # histories that hand the object other inputs (reset_new / set): only harness/c04_full.cpp speaks them
+        old = ctx.rng
+        ctx.rng = random.Random(f"search-multi-{ctx.seed}")
+        try:
+            run_env_state(ctx, c2, c04_full.full_harness(ctx), 1500, 60)
+        finally:
+            ctx.rng = old
     return c2.failures
 
 
@@ -236,20 +244,55 @@ def classify(ctx, failure):
 DRIVERS = ["drv_mtf", "drv_envstate"]
 
 
-def gen_env_history(rng, maxlen):
+def gen_env_history(rng, maxlen, multi=False):
+    """multi: the object is also given OTHER inputs (`reset_new k`): same-shape variants (other coefficients, weights,
+    sparsity pattern) and problems of another size, regular and singular; cache-filling off-diagonal queries
+    (unknowns / observations far apart: outside the envelope) before and after"""
+    from props import c04_full as cf
     while True:
-        p = g.gen_problem(rng, rng.choice(["levelling", "levelling", "levelling", "dense"]), correlated=rng.random() < 0.3)
-        if p["n"] >= 2:
+        ps = cf.gen_problems(rng, unit=False) if multi else \
+            [g.gen_problem(rng, rng.choice(["levelling", "levelling", "levelling", "dense"]), correlated=rng.random() < 0.3)]
+        if all(q_["n"] >= 2 for q_ in ps):
             break
-    subs = [S for S, ok in g.gen_subsets(rng, p, 4) if ok and len(S) >= max(1, p["defect"])]
+    p = ps[0]
+    order = ps[1:] + [p]
+    p["_all"] = order
+
+    def subsets(q_):
+        return [S for S, ok in g.gen_subsets(rng, q_, 4) if ok and len(S) >= max(1, q_["defect"])]
+    subs = subsets(p)
     init = rng.choice([None, "all"] + subs)
-    ops = g.problem_lines(p, init) + ["new env solver", "envinfo", "state"]
+    ops = [l for q_ in ps[1:] for l in g.problem_lines(q_, None)] + g.problem_lines(p, init) + ["new env solver", "envinfo", "state"]
     n, m = p["n"], p["m"]
     keys = [rng.randint(1, n) for _ in range(rng.randint(2, 6))]
     okeys = [rng.randint(1, m) for _ in range(rng.randint(1, 4))]
     qs = []
+    cur, cfg = p, init
     for _ in range(rng.randint(1, maxlen)):
         r = rng.random()
+        if multi and r < 0.12:
+            k = rng.randrange(len(order))
+            old, cur = cur, order[k]
+            qs.append(f"reset_new {k + 1}")
+            if cfg in (None, "all"):
+                # finding C04-env-allist-survives-reset: the list 1..n materialised by solve_x() for the OLD size stays
+                # in the object; a caller has to say min_x() again after handing over a system of another size
+                if cur["n"] != old["n"]:
+                    qs.append("min_x_all")
+                    cfg = "all"
+            elif not cf._valid_for(cur, cfg):
+                cs = subsets(cur)
+                cfg = rng.choice(cs) if cs else "all"
+                qs.append("min_x_all" if cfg == "all" else "min_x %d %s" % (len(cfg), " ".join(map(str, cfg))))
+            n, m = cur["n"], cur["m"]
+            keys = [rng.randint(1, n) for _ in range(rng.randint(2, 6))]
+            okeys = [rng.randint(1, m) for _ in range(rng.randint(1, 4))]
+            subs = subsets(cur)
+            continue
+        if multi and r < 0.30:
+            qs.append(rng.choice(["qxx 1 %d" % n, "qxx %d 1" % n, "q0xx 1 %d" % n, "qbb 1 %d" % m, "qbb %d 1" % m,
+                                  "qxx %d %d" % (rng.randint(1, n), n)]))
+            continue
         if r < 0.10:
             q = "x"
         elif r < 0.15:
@@ -266,17 +309,21 @@ def gen_env_history(rng, maxlen):
             q = "qbb %d %d" % (rng.choice(okeys), rng.choice(okeys))
         elif r < 0.82:
             q = "lindep %d" % rng.choice(keys)
-        elif r < 0.90:
+        elif r < 0.90 and subs:
             S = rng.choice(subs)
             q = "min_x %d %s" % (len(S), " ".join(map(str, S)))
+            cfg = S
         elif r < 0.94:
             q = "min_x_all"
+            cfg = "all"
         else:
             q = "reset"
         qs.append(q)
     lines = []
     for q in qs:
         lines.append(q)
+        if q.startswith("reset_new"):
+            lines.append("envinfo")         # facts of the new input (they do not depend on the stored list)
         lines.append("state")
         if not q.startswith(CONFIG_OPS):
             lines.append("fresh " + q)
@@ -284,14 +331,22 @@ def gen_env_history(rng, maxlen):
 
 
 def run_env_state(ctx, corr, exe, n, maxlen):
-    gens = [gen_env_history(ctx.rng, maxlen) for _ in range(n)]
+    gens = [gen_env_history(ctx.rng, maxlen, multi=(k % 2 == 1)) for k in range(n)]
     cases = [ops + lines for (_, ops, _, lines) in gens]
     impl, crashes = run_cases(exe, cases, timeout=1800)
-    # second phase: hand the implementation's envinfo facts to the model
+    # second phase: hand the implementation's envinfo facts to the model (one per `envinfo` line, in order)
+    SILENT = ("problem", "row", "cov", "rhs", "minx")
     mcases = []
     for c, o in zip(cases, impl):
-        info = next((l for l in o if l.startswith("envinfo ")), None)
-        mcases.append([(info if (l == "envinfo" and info) else l) for l in c])
+        it = iter(o)
+        mc = []
+        for l in c:
+            if l.split()[0] in SILENT:
+                mc.append(l)
+                continue
+            ol = next(it, "")
+            mc.append(ol if (l == "envinfo" and ol.startswith("envinfo ")) else l)
+        mcases.append(mc)
     model, _ = run_cases(ctx.driver("drv_envstate"), mcases, timeout=1800)
     for i, (p, ops, qs, lines) in enumerate(gens):
         nontrivial = p["defect"] > 0 and len(set(q for q in qs if q.startswith(("qxx", "q0xx")))) >= 3
@@ -299,6 +354,9 @@ def run_env_state(ctx, corr, exe, n, maxlen):
                   sample={"env_history": qs[:12], "impl": impl[i][2:14], "model": model[i][2:14]} if i < 1 else None)
         corr.count("env_hist")
         corr.count("env_hist_singular" if p["defect"] else "env_hist_regular")
+        rn = [int(q.split()[1]) - 1 for q in qs if q.startswith("reset_new")]
+        corr.count("env_reset_new", len(rn))
+        corr.count("env_reset_new_same_size", sum(1 for k in rn if p["_all"][k]["n"] == p["n"]))
         if i in crashes:
             corr.fail("history crashes AdjEnvelope (sanitizer / abort)", {"stream": "envstate", "ops": cases[i]},
                       "env/solver", crashes[i][1])
@@ -308,6 +366,17 @@ def run_env_state(ctx, corr, exe, n, maxlen):
             k = next((j for j, (x, y) in enumerate(zip(a, b)) if not lines_equal(x, y, rtol=1e-8, atol=1e-9)), min(len(a), len(b)))
             corr.disagree("envstate", cases[i], a[max(0, k - 2):k + 2], b[max(0, k - 2):k + 2], f"first difference at output line {k}")
         corr.count("env_cache_evictions", sum(1 for l in a if l.startswith("st ") and len(l.split("keys")[1].split()) == 3))
+        # the property on the implementation itself: every answer equals the answer of a fresh object given the
+        # CURRENT input and configuration (lines: <query>, state, fresh <query>)
+        nsil = len([l for l in cases[i] if l.split()[0] in ("problem", "row", "cov", "rhs", "minx")])
+        lines_ = cases[i][nsil:]
+        if len(a) == len(lines_):
+            ff = c04_full.fresh_failures(lines_, a, set())
+            if ff:
+                k, q, got, fr = ff[0]
+                corr.fail(f"answer to '{q}' depends on history: got {got}, fresh object gives {fr}",
+                          {"stream": "envstate", "ops": cases[i][:nsil] + lines_[:k + 1], "alg": "env", "entry": "solver"},
+                          "env/solver", f"{got} vs {fr}")
 
 
 _hist_correspond = correspond
@@ -315,7 +384,7 @@ _hist_correspond = correspond
 
 def correspond(ctx, corr):          # noqa: F811
     _hist_correspond(ctx, corr)
-    exe = adj_harness(ctx)
+    exe = c04_full.full_harness(ctx)      # same protocol as adj_harness.cpp + select / reset_new
     run_env_state(ctx, corr, exe, ctx.size(200, 6000), ctx.size(25, 100))
 
 
